@@ -106,6 +106,7 @@ type FnExec struct {
 	callBindings []*Term // bindings of the closure whose contract is being applied
 	opaqueTargets []*ssa.Function // possible targets of the call being treated as opaque
 	privAllocs map[*ssa.Alloc]bool
+	curInstr   ssa.Instruction // instruction being executed
 	privRefs   map[*ssa.Alloc]*Term
 }
 
@@ -1393,6 +1394,7 @@ func (fx *FnExec) execBlock(b *ssa.BasicBlock, st *State) {
 
 // execInstr returns true when the instruction ends the block.
 func (fx *FnExec) execInstr(b *ssa.BasicBlock, st *State, ins ssa.Instruction) bool {
+	fx.curInstr = ins
 	switch x := ins.(type) {
 	case *ssa.DebugRef:
 	case *ssa.Alloc:
